@@ -13,6 +13,7 @@ import numpy as np
 from sim.machine import Machine, Result
 from sim.seeds import Streams, derive
 from sim import compare as C
+from sim import shadow
 from machines.c01 import (queries_for, invoke, qkey, cwd, run_dirs, snap,
                           with_pos)
 
@@ -54,12 +55,29 @@ PAIR_CLASSES = ("Network", "InteractingNetworks", "GeoNetwork",
                 "InterSystemRecurrenceNetwork", "CouplingAnalysis")
 
 
+# derived networks: computed, briefly used and dropped -- perpetrators only
+DERIVED = [("copy", {}), ("undirected_copy", {}), ("splitted_copy", {}),
+           ("splitted_copy", {"node": 0, "proportion": 0.3}),
+           ("permuted_copy", {"permutation": "@perm"}),
+           ("subnetwork", {"nodes": "@half1"})]
+
+
+def derived_for(spec):
+    if spec.family != "network":
+        return []
+    cls = spec.cls()
+    return [q for q in DERIVED if hasattr(cls, q[0])]
+
+
 def all_queries(spec):
-    return queries_for(spec) + RANDOMISED.get(spec.name, [])
+    return queries_for(spec) + RANDOMISED.get(spec.name, []) + \
+        derived_for(spec)
 
 
 def is_random(spec, name):
-    return any(name == n for n, _ in RANDOMISED.get(spec.name, []))
+    """Perpetrator-only calls: randomised generators and derived networks."""
+    return any(name == n for n, _ in RANDOMISED.get(spec.name, [])) or (
+        spec.family == "network" and any(name == n for n, _ in DERIVED))
 
 
 class C06(Machine):
@@ -78,7 +96,8 @@ class C06(Machine):
                    "same_array_topology", "copy_topology",
                    "randomised_perpetrator", "caller_arrays_checked",
                    "shared_object_queries_checked", "both_raised",
-                   "repeat_checked", "static_helper_called")
+                   "repeat_checked", "static_helper_called",
+                   "derived_network_perpetrator")
     real_vs_stub = {"real": ["every memoising class: public constructors and "
                              "all discovered query patterns, the class-level "
                              "LRU with its capacity knob"],
@@ -95,8 +114,8 @@ class C06(Machine):
 
     def lru_configs(self, tier):
         if tier == "thorough":
-            return ["default", "1", "inf", "off"]
-        return ["default", "1"]
+            return ["default", "1", "inf", "off", "shadow"]
+        return ["default", "1", "shadow"]
 
     def budget(self, tier):
         if tier == "thorough":
@@ -212,9 +231,11 @@ class C06(Machine):
                 shutil.rmtree(base, ignore_errors=True)
         SP._capture = []
         SP._share = {} if topo in ("shared_data", "shared_grid") else None
+        shadow.reset()
         try:
             return self._execute(run, R, SP, odir, tdir, topo)
         finally:
+            shadow.reset()
             SP._capture = None
             SP._share = None
             shutil.rmtree(base, ignore_errors=True)
@@ -291,12 +312,13 @@ class C06(Machine):
                     if rotate else sq
                 for qn, qk in picks:
                     # call-site pattern rotates with the step
-                    qk = dict(qk, **{"@pos": (step + 1) % 3})
+                    qk = dict(qk, **{"@pos": (step + 1) % 4,
+                                     "@k": (step + 1) // 4})
                     rk = (sname, qkey(qn, qk))
                     smodel = {"n": so.N if sspec.name == "GeoGrid"
                               else so.grid.N}
                     if rk not in shared_ref:
-                        with cwd(tdir):
+                        with cwd(tdir), shadow.paused():
                             iso = maker()
                             shared_ref[rk] = snap(C.call(
                                 invoke, iso, qn, qk, smodel))
@@ -336,9 +358,23 @@ class C06(Machine):
                 random.seed(step + 17)
             with cwd(odir):
                 val = C.call(invoke, obj, name, kw, model)
+                if rnd and hasattr(val, "adjacency"):
+                    # a derived network is used a little and dropped
+                    R.probe("derived_network_perpetrator")
+                    for qn in ("degree", "path_lengths", "nsi_degree"):
+                        C.call(getattr(val, qn))
+                    val = None
                 val_s = snap(val)
                 if not rnd:
                     val2 = C.call(invoke, obj, name, kw, model)
+            for e in shadow.drain():
+                # shadow configuration: a hit whose re-evaluation differs
+                R.probe("shadow_mismatching_hit")
+                self._viol(R, spec, key, f"memo-{e['kind']}", e["qual"],
+                           f"step {step}: during {spec.name}.{key} the "
+                           f"memoised {e['qual']}{e['args']} was served "
+                           f"although re-evaluating it gives another value "
+                           f"({e['why']}); {e['kind']}")
             names_seen.add(key)
             if isinstance(val, np.ndarray):
                 seen_arr = True
@@ -387,6 +423,11 @@ class C06(Machine):
                     held[hi] = (k_, a, a.tobytes(), a.dtype.str, a.shape)
             # (iv) the shared object still answers as an isolated one
             check_shared(step, spec, key, rotate=True)
+        if shadow.STATE["installed"]:
+            h, nd = shadow.take_counts()
+            R.probe("shadow_hits_reevaluated", h)
+            if nd:
+                R.probe("shadow_nondeterministic_method", nd)
         R.opsig = C.digest_of(repr(sig))
         return R.as_dict()
 
@@ -461,6 +502,10 @@ class C06(Machine):
             return C.call(spec.build, {k: v for k, v in model.items()})
 
     def _ref(self, st, run, op, tdir, SP, prefix=()):
+        with shadow.paused():
+            return self._ref0(st, run, op, tdir, SP, prefix)
+
+    def _ref0(self, st, run, op, tdir, SP, prefix=()):
         o = self._fresh(st, tdir, SP)
         if isinstance(o, C.Raised):
             return None
